@@ -97,19 +97,28 @@ class Job(BaseJob[Callable[..., None]]):
             tzinfo=tzinfo,
         )
         self.__lock = threading.RLock()
+        # serialises the runs of this job's callback; the state lock above is never
+        # held while user code runs (a callback may use its scheduler, which takes the
+        # scheduler's lock and then job state locks)
+        self.__exec_lock = threading.RLock()
         self.__weight = weight
 
     # pylint: disable=no-member invalid-name
 
     def _exec(self, logger: Logger) -> None:
         """Execute the callback function."""
-        with self.__lock:
+        with self.__exec_lock:
+            if not self.has_attempts_remaining:
+                # an overlapping exec_jobs call has used up the budget meanwhile
+                return
             try:
                 self._BaseJob__handle(*self._BaseJob__args, **self._BaseJob__kwargs)  # type: ignore
             except Exception:
                 logger.exception("Unhandled exception in `%r`!", self)
-                self._BaseJob__failed_attempts += 1  # type: ignore
-            self._BaseJob__attempts += 1  # type: ignore
+                with self.__lock:
+                    self._BaseJob__failed_attempts += 1  # type: ignore
+            with self.__lock:
+                self._BaseJob__attempts += 1  # type: ignore
 
     # pylint: enable=no-member invalid-name
 
